@@ -1,6 +1,6 @@
 (** Property C09 — results do not depend on map iteration or key insertion order. *)
 From Coq Require Import String List ZArith Bool Permutation.
-From Zog Require Import Model.Val Model.Engine Spec.Sem Spec.Satisfies Proofs.Refine Proofs.Indep.
+From Zog Require Import Model.Val Model.Engine Spec.Sem Spec.Satisfies Proofs.Refine Proofs.Indep Proofs.DeepOrder.
 Import ListNotations.
 
 (** A struct schema holds its fields in visit order.  For every permutation of that order: the
@@ -23,6 +23,29 @@ Theorem C09_fields_order_independent_partial : forall m pv fs fs' dfs e,
   /\ snd (sem_fields (sem m) m pv fs dfs e) = snd (sem_fields (sem m) m pv fs' dfs e).
 Proof. exact fields_order_independent. Qed.
 Print Assumptions C09_fields_order_independent_partial.
+
+(** At every depth: [sch_perm s s'] reorders the fields of any struct nodes of [s], however deeply
+    nested (inside structs, slices, pointers, Preprocess).  The final value is the same and the
+    entries are the same up to order, for every mode, data, destination and incoming error state.
+    PARTIAL in the same sense: schemas without PostTransforms (C09/pt-gating). *)
+Theorem C09_deep_order_independent_partial : forall s s' m dat d e,
+  sch_perm s s' -> pt_free s = true -> keys_nodup s ->
+  Permutation (fst (sem m s dat d e)) (fst (sem m s' dat d e)) /\ snd (sem m s dat d e) = snd (sem m s' dat d e).
+Proof. exact deep_order_independent_sem. Qed.
+Print Assumptions C09_deep_order_independent_partial.
+
+(** the premises are met by a nested schema reordered at both levels *)
+Theorem C09_deep_premise_is_satisfiable : sch_perm ex_outer ex_outer' /\ pt_free ex_outer = true /\ keys_nodup ex_outer.
+Proof. exact ex_deep_perm. Qed.
+Print Assumptions C09_deep_premise_is_satisfiable.
+
+(** the order of the input's keys: any rearrangement of the input map (distinct keys) is the same
+    input, for every struct schema (PostTransforms included) *)
+Theorem C09_input_key_order_irrelevant : forall tag mp mp' fs tests pts m d e0,
+  Permutation mp mp' -> NoDup (map fst mp) ->
+  sem m (SStruct fs tests pts) (DProv (PMap tag mp)) d e0 = sem m (SStruct fs tests pts) (DProv (PMap tag mp')) d e0.
+Proof. exact input_key_order_irrelevant. Qed.
+Print Assumptions C09_input_key_order_irrelevant.
 
 (** whether an issue already exists is irrelevant to a schema without PostTransforms *)
 Theorem C09_error_state_irrelevant_without_transforms : forall s, pt_free s = true -> forall m dat d e0 e1, sem m s dat d e0 = sem m s dat d e1.
